@@ -43,7 +43,7 @@ def generate(ctx):
                "module": rng.random() < 0.5, "seed": rng.randrange(1 << 31),
                "zeros": rng.choice(["some", "some", "all", "none"]), "ones": rng.random() < 0.6,
                "reconfigure": rng.random() < 0.35, "layout": rng.choice(["row_major", "row_major", "transposed"]),
-               "in_dtype": rng.choice(["float32", "float32", "float64"]), "consume": rng.choice(["stream", "collect"])}
+               "in_dtype": rng.choice(["float32", "float32", "float64"]), "consume": rng.choice(["stream", "collect"]), "negzero": rng.random() < 0.3}
     yield from _saturated(rng, 400 if ctx.tier == "thorough" else 12)
     # silence at zero intensity is a statement about every draw of the generator: very many zero-intensity element-steps
     for i in range(320 if ctx.tier == "thorough" else 24):
@@ -80,6 +80,9 @@ def _inputs(desc):
         flat.fill_(1.0)
     elif desc["ones"] and flat.numel() > 1 and desc["zeros"] != "all":
         flat[1] = 1.0
+    if desc.get("negzero"):
+        # the zero intensities carry a negative sign bit (what -x * 0, x * -0.0 or a negated zero image leave behind): still zero
+        x = torch.where(x == 0, torch.full_like(x, -0.0), x)
     if desc.get("in_dtype") == "float64":
         x = x.double()
     if desc.get("layout") == "transposed" and x.ndim >= 2:
@@ -214,6 +217,8 @@ def run_case(ctx, desc):
         ctx.count("zero_intensity_element_steps_in_storms", int(zero.sum()) * steps)
     if bool(zero.any()):
         ctx.count("zero_intensity_elements", int(zero.sum()))
+        if desc.get("negzero"):
+            ctx.count("negative_zero_intensity_elements", int(zero.sum()))
         if bool(res[:, zero].any()):
             return ctx.violation(f"{opk}.spike_at_zero_intensity", "an element of zero intensity spiked", desc,
                                  {"steps_with_spikes": res[:, zero].any(-1).nonzero().view(-1).tolist()[:10]})
